@@ -78,3 +78,13 @@ def impl_only(crate, binname, replay_path):
     okay = (obs and (obs[0] == exp or (exp == "Err" and obs[0].startswith("Err "))))
     print("REPRODUCED" if not okay else "NOT REPRODUCED (implementation now meets the expectation)")
     return 1 if not okay else 0
+
+
+def report_diffs(run, diffs, model_name, impl_name, corr_name, limit=50):
+    """A model/implementation disagreement that the oracle cannot turn into a failing input of the
+    property is still reported: the property is no longer shown to hold."""
+    run.coverage["correspondence_disagreements"] = run.coverage.get("correspondence_disagreements", 0) + len(diffs)
+    for c, m, i in diffs[:limit]:
+        run.violation(kind="input", case=c, expected=m, observed=i, how_found="correspondence",
+                      no_failing_input_found=True,
+                      detail="model %s and %s disagree; correspondence `%s` no longer checks" % (model_name, impl_name, corr_name))
